@@ -18,6 +18,9 @@ Theorem C18_code_ids_compare_as_numbers :
   forallb (derives ReloadId_derives) ["PartialEq"; "Eq"; "PartialOrd"; "Ord"]%string = true.
 Proof. exact reload_ids_compare_as_numbers. Qed.
 
+Theorem C18_code_update_is_total : plain_update_wf ReloadId_update = true.
+Proof. exact update_is_total. Qed.
+
 Theorem C18_code_ids_are_whole_words :
   fn_body ReloadId_fields = [EPath ["usize"%string]] /\ fn_body AtomicReloadId_fields = [EPath ["AtomicUsize"%string]].
 Proof. exact reload_ids_are_whole_words. Qed.
